@@ -1748,29 +1748,41 @@ def camp_c04(rnd, tier):
             o = b.newb(kind, "positions", ty=ty, pos=pos)
             b.meta(o)
             b.qg(o, "get", [], [0, 1, 5, 700, 701, -1])
-    # every mutator with valid arguments, each transition of a bit (0->0, 0->1, 1->0, 1->1), in both builds
-    b.reset()
-    bits = [1, 0, 1, 1, 0, 0, 1] + [1] * 60 + [0] * 70
-    o = b.newb("BVM", "bools", Seqn.from_values(bits))
-    for i, v in ((0, 0), (0, 0), (0, 1), (0, 1), (1, 1), (1, 0), (63, 0), (64, 0), (66, 0), (67, 1), (136, 1), (136, 0)):
-        b.mut(o, "set", a=[i, v])
-        bits[i] = v
-    b.mut(o, "set_bits", a=[0, 64], w=[])
-    bits[0:64] = [0] * 64
-    b.mut(o, "set_bits", a=[60, 10], w=[0, 9])
-    bits[60:70] = [1] + [0] * 8 + [1]
-    b.mut(o, "push", a=[1])
-    bits.append(1)
-    b.mut(o, "append_bits", a=[64], w=list(range(64)))
-    bits += [1] * 64
-    b.mut(o, "extend_with_zeros", a=[513])
-    bits += [0] * 513
-    b.mut(o, "extend_positions", pos=[0, 1, len(bits) + 5])
-    bits[0] = bits[1] = 1
-    bits += [0] * 5 + [1]
-    b.mut(o, "extend_bools", bits=[1, 0, 1])
-    bits += [1, 0, 1]
-    bvm_observe(b, o, bits, rnd, light=True)
+    # every mutator with valid arguments, each transition of a bit (0->0, 0->1, 1->0, 1->1), in both builds,
+    # on vectors obtained in every way (built from bools, converted from an immutable vector, cloned,
+    # deserialized, with a generous capacity)
+    for how in ("bools", "from_bv", "cap_push", "clone", "serde", "roundtrip"):
+        b.reset()
+        bits = [1, 0, 1, 1, 0, 0, 1] + [1] * 60 + [0] * 70
+        if how in ("bools", "from_bv", "cap_push"):
+            o = b.newb("BVM", how, Seqn.from_values(bits))
+        else:
+            o0 = b.newb("BVM", "bools", Seqn.from_values(bits))
+            if how == "roundtrip":
+                o = b.conv(b.conv(o0, "into_bv", keep=0), "into_bvm", keep=0)
+            else:
+                o = b.conv(o0, how, keep=0)
+        for i, v in ((0, 0), (0, 0), (0, 1), (0, 1), (1, 1), (1, 0), (63, 0), (64, 0), (66, 0), (67, 1), (136, 1), (136, 0)):
+            b.mut(o, "set", a=[i, v])
+            bits[i] = v
+        b.mut(o, "set_bits", a=[0, 64], w=[])
+        bits[0:64] = [0] * 64
+        b.mut(o, "set_bits", a=[60, 10], w=[0, 9])
+        bits[60:70] = [1] + [0] * 8 + [1]
+        b.mut(o, "push", a=[1])
+        bits.append(1)
+        b.mut(o, "append_bits", a=[64], w=list(range(64)))
+        bits += [1] * 64
+        b.mut(o, "extend_with_zeros", a=[513])
+        bits += [0] * 513
+        b.mut(o, "extend_positions", pos=[0, 1, len(bits) + 5])
+        bits[0] = bits[1] = 1
+        bits += [0] * 5 + [1]
+        b.mut(o, "extend_bools", bits=[1, 0, 1])
+        bits += [1, 0, 1]
+        b.mut(o, "extend_bools_filter", bits=[0, 1])
+        bits += [0, 1]
+        bvm_observe(b, o, bits, rnd, light=True)
     # mutators at their documented limits
     b.reset()
     o = b.newb("BVM", "bools", Seqn.from_values([1, 0, 1, 1]))
